@@ -296,7 +296,8 @@ func (g *gctx) text() string {
 }
 
 func (g *gctx) attrs() string {
-	names := []string{"id", "class", "title", "lang", "data-a", "data-b", "style", "hidden", "dir"}
+	// (names with a colon, an underscore or a dot inside are plain attribute names, not bindings)
+	names := []string{"id", "class", "title", "lang", "data-a", "data-b", "style", "hidden", "dir", "xml:lang", "hx-on:click", "data-x:y", "aria-label", "data_u", "x.y"}
 	n := rapid.IntRange(0, 3).Draw(g.t, "na")
 	used := map[string]bool{}
 	var sb strings.Builder
@@ -555,6 +556,7 @@ func classify(c Case) (bool, []string) {
 	mark(strings.Contains(s, "<script") || strings.Contains(s, "<style") || strings.Contains(s, "<textarea") || strings.Contains(s, "<pre"), "raw-text-element")
 	mark(strings.Contains(s, "<pre") && (strings.Contains(s, "<span class=\"k\">") || strings.Contains(s, "<code>")), "pre-with-elements")
 	mark(strings.Contains(s, "<pre>\n") || strings.Contains(s, "<textarea name=\"t\">\n"), "pre-leading-newline")
+	mark(strings.Contains(s, " xml:lang=") || strings.Contains(s, " hx-on:click=") || strings.Contains(s, " data-x:y="), "attribute-name-with-colon")
 	mark(strings.Contains(s, "<table"), "table")
 	mark(c.Doc, "document")
 	mark(c.Doc && len(s)-strings.LastIndex(s, "</html>") > 64, "document-with-long-trailer")
@@ -596,6 +598,7 @@ var corpus = []Case{
    this</pre><textarea name="t">a  b</textarea>`, Entry: "string"},
 	{Source: `<script>if (a<b && c>d) { s = "&amp;"; }</script><style>a > b { content: "<" }</style>`, Entry: "string"},
 	{Source: `<a href="/q?a=1&amp;b=2&amp;copy=3">x</a>`, Entry: "string"},
+	{Source: `<p xml:lang="en" hx-on:click="go()" data-x:y="1" x.y="z" aria-label="a &amp; b">x</p><svg viewBox="0 0 1 1"><use xlink:href="#i"></use></svg>`, Entry: "string"},
 	{Source: "<pre>a <span>b</span> c\n  <b>d</b><i>e</i>\nf</pre><div><pre><code>x\n  y</code> <em><strong>q</strong>r</em>s</pre></div>", Entry: "string"},
 	{Source: "<pre>\n\nblank first</pre><textarea name=\"t\">\n\nblank first</textarea><pre>{{ h1 }}</pre>", Entry: "string", Data: map[string]vals.V{"h1": vals.Str("\nline")}},
 	{Source: `<noscript><img src="x.png" alt=""><p>enable &amp; reload</p></noscript><xmp><b>bold</b> &amp; x</xmp><iframe src="/f"><p>fallback</p></iframe>`, Entry: "string"},
